@@ -518,16 +518,20 @@ fn plant_tree() -> &'static (PathBuf, PathBuf) {
             for f in ["x", "x.sym", "x.pdb", "x.dll", "x.dbg", "x.so", "x.exe", ".sym"] {
                 std::fs::write(level.join(f), SYM).expect("decoy");
             }
-            for d in [format!("x/{PLANT_ID}"), format!("{PLANT_ID}"), "x.pdb/".to_string() + PLANT_ID, "5AB38FE2c000".to_string(), "x/5AB38FE2c000".to_string()] {
+            for d in [format!("x/{PLANT_ID}"), format!("{PLANT_ID}"), "x.pdb/".to_string() + PLANT_ID, "5AB38FE2c000".to_string(), "x/5AB38FE2c000".to_string(), format!("..x/{PLANT_ID}"), format!("..x.pdb/{PLANT_ID}"), "..x/5AB38FE2c000".to_string()] {
                 // not inside the symbol directory itself
                 if level.join(&d).starts_with(&root) {
                     continue;
                 }
                 let _ = std::fs::create_dir_all(level.join(&d));
-                for f in ["x.sym", ".sym", "x", "x.dll", "x.pdb", "x.dbg"] {
+                for f in ["x.sym", ".sym", "x", "x.dll", "x.pdb", "x.dbg", "..x.sym", "..x", "..x.pdb", "..x.dll"] {
                     let _ = std::fs::write(level.join(&d).join(f), SYM);
                 }
             }
+        }
+        // index files some symbol-store layouts keep at their root
+        for f in ["index2.txt", "pingme.txt", "000Admin"] {
+            let _ = std::fs::write(root.join(f), b"");
         }
         // and what a genuine symbol directory holds for modules named x / x.pdb / x.dll
         for d in [format!("x/{PLANT_ID}"), format!("x.pdb/{PLANT_ID}"), "x.dll/5AB38FE2c000".to_string(), "x/5AB38FE2c000".to_string()] {
@@ -605,6 +609,35 @@ fn space_planted(max_len: u32) -> Space {
     })
 }
 
+/// Characters whose case mapping yields ASCII (U+212A KELVIN SIGN -> k, U+017F LONG S -> s, U+0130 -> i + mark):
+/// every string of length <= 4 over {K-sign, long-s, dotted-I, ":", "a", "/", "\\", "."} as debug_file / code_file /
+/// both, through every lookup function: whatever normalisation a lookup applies, the result is judged as always.
+fn space_unicode_case() -> Space {
+    const U: [&str; 8] = ["\u{212a}", "\u{17f}", "\u{130}", ":", "a", "/", "\\", "."];
+    let ids = id_menu();
+    let n_str = seq_count(8, 4);
+    let radices = [n_str, 3, ids.len() as u64];
+    let len = product(&radices);
+    let decode = move |idx: u64| {
+        let d = unrank(idx, &radices);
+        let s: String = seq_unrank(d[0], 8, 4).iter().map(|&t| U[t as usize]).collect();
+        (s, d[1], d[2] as usize)
+    };
+    let run = move |idx: u64, l: &mut Local| {
+        let (s, which, i) = decode(idx);
+        let m = match which {
+            0 => simple_module(Some(s), "x.dll".into(), &ids[i]),
+            1 => simple_module(None, s, &ids[i]),
+            _ => simple_module(Some(s.clone()), s, &ids[i]),
+        };
+        exercise(l, &m, i, true);
+    };
+    Space::new("unicode-case-mapping", len, run, move |idx| {
+        let (s, which, i) = decode(idx);
+        json!({"class": "unicode-case-mapping", "name": s, "field": (["debug_file", "code_file only", "both"][which as usize]), "id_menu_entry": i})
+    })
+}
+
 fn main() {
     // before any HTTP client exists: the whole process talks HTTP(S) through the loopback proxy
     let proxy = start_proxy();
@@ -638,7 +671,7 @@ fn main() {
                 }
             }
         }));
-        def.spaces = vec![space_one_field("debug_file", true, n), space_one_field("code_file", false, n), space_pairs(3), space_suffixed(n - 1), space_minidump_modules(3), space_wire(ctx.tier.pick(3, 4)), space_planted(ctx.tier.pick(4, 5))];
+        def.spaces = vec![space_one_field("debug_file", true, n), space_one_field("code_file", false, n), space_pairs(3), space_suffixed(n - 1), space_minidump_modules(3), space_wire(ctx.tier.pick(3, 4)), space_planted(ctx.tier.pick(4, 5)), space_unicode_case()];
         def
     })
 }
